@@ -339,6 +339,17 @@ fn one_folded(i: u64, url_lists: &[Vec<(Vec<u8>, Vec<u8>)>], body_lists: &[Vec<(
     plan.body_params = Some(bl.clone());
     plan.headers.push(("Content-Type".into(), b"application/x-www-form-urlencoded".to_vec()));
     plan.signed.push("content-type".into());
+    // entity headers describing the form as submitted (accurate ones): they come back as they were sent, whether
+    // signed or not, although the body that comes back is empty
+    let body_len = plan.body.len().to_string().into_bytes();
+    plan.headers.push(("Content-Length".into(), body_len));
+    plan.headers.push(("Content-MD5".into(), b"1B2M2Y8AsgTpgAmY7PhCfg==".to_vec()));
+    plan.headers.push(("Content-Encoding".into(), b"identity".to_vec()));
+    plan.headers.push(("X-Amz-Content-Sha256".into(), refmodel::hex_lower(&refmodel::hmac::sha256(&plan.body)).into_bytes()));
+    if i % 2 == 0 {
+        plan.signed.push("content-length".into());
+        plan.signed.push("x-amz-content-sha256".into());
+    }
     if pathk >= 1 {
         plan.segs = vec![b"f o".to_vec(), b"x".to_vec()];
         plan.wire_path = Some(if pathk == 1 { "/f%20o/x".into() } else { "/f%20o/%78".into() });
@@ -415,7 +426,7 @@ pub fn run(ctx: &Ctx) -> Report {
     Report {
         stats: st,
         rule: format!(
-            "accepted (reference-signed) requests: 11 methods (incl. extension methods) x 5 HTTP versions x 4 header multisets (repeated names, non-UTF-8 and empty values, mixed-case names), every second request also carrying a second Authorization and X-Amz-Security-Token header after the ones that count, half of them a session token x body types (), Vec<u8>, Bytes x {} body lengths (11 .. 65537 bytes, around 256) x 4 request-target / host forms (origin, origin with escapes / '+' / '&&', absolute-form, absolute-form without a Host header and ':authority' signed) x carrier x 4 principals x 3 session data x {{default, S3, fold}}, the whole product once per logger configuration {:?} (no logger output, or a logger that formats every record at that maximum level{}); returned method, version, URI, header names/values/multiplicity/per-name order, body bytes and principal/session data compared with what was submitted / supplied; plus {} folded form requests (URL x body parameter lists x path spelling x S3 x carrier) per logger configuration: body empty and returned query multiset = URL ⊎ body. states = distinct (principal, session size) returned; Extensions marker recorded, not judged",
+            "accepted (reference-signed) requests: 11 methods (incl. extension methods) x 5 HTTP versions x 4 header multisets (repeated names, non-UTF-8 and empty values, mixed-case names), every second request also carrying a second Authorization and X-Amz-Security-Token header after the ones that count, half of them a session token x body types (), Vec<u8>, Bytes x {} body lengths (11 .. 65537 bytes, around 256) x 4 request-target / host forms (origin, origin with escapes / '+' / '&&', absolute-form, absolute-form without a Host header and ':authority' signed) x carrier x 4 principals x 3 session data x {{default, S3, fold}}, the whole product once per logger configuration {:?} (no logger output, or a logger that formats every record at that maximum level{}); returned method, version, URI, header names/values/multiplicity/per-name order, body bytes and principal/session data compared with what was submitted / supplied; plus {} folded form requests (URL x body parameter lists x path spelling x S3 x carrier; each with an accurate Content-Length, Content-MD5, Content-Encoding and X-Amz-Content-Sha256, signed for every second one) per logger configuration: body empty and returned query multiset = URL ⊎ body. states = distinct (principal, session size) returned; Extensions marker recorded, not judged",
             BODY_SIZES.len(), levels, if thorough { "" } else { "; quick tier: each level covers a different third of the (method, version, header set) combinations, all other dimensions in full" }, n_f
         ),
         bounds: json!({"combinations_per_level": total, "levels": levels.len(), "folded": n_f}),
